@@ -17,14 +17,114 @@ use std::net::IpAddr;
 use std::sync::{Arc, OnceLock};
 use ttl_cache::TtlCache;
 
+thread_local! {
+    /// which signature database the analyzers built on this thread get: 0 = the bundled p0f.fp, 1..=DB_VARIANTS = a
+    /// deterministic rewrite of it (see `db_text_variant`). Set by a scenario at the start of its run; reset by the runner.
+    static DB_VARIANT: std::cell::Cell<u32> = const { std::cell::Cell::new(0) };
+}
+
+pub const DB_VARIANTS: u32 = 24;
+
+pub fn set_db_variant(v: u32) {
+    // diagnosis aid: VSIM_FORCE_DB_VARIANT=n makes every run that asks for any database use rewrite n
+    static FORCE: OnceLock<Option<u32>> = OnceLock::new();
+    let v = FORCE.get_or_init(|| std::env::var("VSIM_FORCE_DB_VARIANT").ok().and_then(|x| x.parse().ok())).unwrap_or(v);
+    DB_VARIANT.with(|c| c.set(v.min(DB_VARIANTS)));
+}
+
+pub fn bundled_text() -> &'static str {
+    static T: OnceLock<String> = OnceLock::new();
+    T.get_or_init(|| {
+        let root = std::env::var("VERIF_REPO").unwrap_or_else(|_| "/repo".to_string());
+        std::fs::read_to_string(format!("{}/huginn-net-db/config/p0f.fp", root)).unwrap_or_default()
+    })
+}
+
+/// The database as an input dimension: the bundled text with signature fields and labels rewritten inside their
+/// grammar - TTL fields in every spelling the loader accepts (`n`, `n-`, `n+?`, `n+d` incl. sums above 255),
+/// window fields at their extremes, label names in another letter case, the `ua_os` list extended by the
+/// product tokens of the generated User-Agents. Which lines are rewritten depends on `v` alone.
+pub fn db_text_variant(v: u32) -> String {
+    let mut r = crate::rng::Rng::new(0xDB00_0000 + v as u64);
+    let mut out = String::new();
+    let mut section = String::new();
+    for line in bundled_text().lines() {
+        let t = line.trim_start();
+        if t.starts_with('[') {
+            section = t.to_string();
+        }
+        let mut l = line.to_string();
+        if t.starts_with("sig") && section.starts_with("[tcp:") && r.chance(1, 3) {
+            if let Some(eq) = l.find('=') {
+                let (head, body) = l.split_at(eq + 1);
+                let mut f: Vec<String> = body.trim().split(':').map(|x| x.to_string()).collect();
+                if f.len() == 8 {
+                    if r.chance(2, 3) {
+                        f[1] = r.pick(&["250+10", "200+100", "255+255", "64+?", "64-", "128", "255", "1", "64+0", "0+255"]).to_string();
+                    }
+                    if r.chance(1, 4) {
+                        let ws: Vec<&str> = f[4].splitn(2, ',').collect();
+                        let scale = ws.get(1).cloned().unwrap_or("*").to_string();
+                        f[4] = format!("{},{}", r.pick(&["mss*255", "mtu*255", "%65535", "65535", "*", "%1", "0"]), if r.chance(1, 3) { "255".to_string() } else { scale });
+                    }
+                    l = format!("{} {}", head, f.join(":"));
+                }
+            }
+        } else if t.starts_with("label") && section.starts_with("[http:") && r.chance(1, 3) {
+            if let Some(eq) = l.find('=') {
+                let (head, body) = l.split_at(eq + 1);
+                let mut f: Vec<String> = body.trim().splitn(4, ':').map(|x| x.to_string()).collect();
+                if f.len() == 4 {
+                    f[2] = if r.chance(1, 2) { f[2].to_uppercase() } else { f[2].to_lowercase() };
+                    l = format!("{} {}", head, f.join(":"));
+                }
+            }
+        } else if t.starts_with("ua_os") {
+            // (in front: the loader's list ends at the first entry it cannot read, `iOS=[iPad]` in the bundled file)
+            if let Some(eq) = l.find('=') {
+                let (head, body) = l.split_at(eq + 1);
+                l = format!("{} Firefox,Chrome,MSIE,Opera,Safari,curl,Wget,webOS,Android,Konqueror,Googlebot,{}", head, body.trim());
+            }
+        }
+        out.push_str(&l);
+        out.push('\n');
+    }
+    out
+}
+
+type DbPair = (Arc<Database>, &'static Database);
+
+fn db_pair() -> DbPair {
+    static BUNDLED: OnceLock<DbPair> = OnceLock::new();
+    static VARIANTS: OnceLock<std::sync::Mutex<std::collections::BTreeMap<u32, DbPair>>> = OnceLock::new();
+    let bundled = BUNDLED.get_or_init(|| {
+        let d = Database::load_default().expect("bundled p0f.fp loads");
+        let s: &'static Database = Box::leak(Box::new(Database::load_default().expect("bundled p0f.fp loads")));
+        (Arc::new(d), s)
+    });
+    let v = DB_VARIANT.with(|c| c.get());
+    if v == 0 {
+        return bundled.clone();
+    }
+    let mut m = VARIANTS.get_or_init(|| std::sync::Mutex::new(std::collections::BTreeMap::new())).lock().unwrap();
+    m.entry(v)
+        .or_insert_with(|| {
+            let text = db_text_variant(v);
+            // a rewrite the loader rejects falls back to the bundled database (the loader's own totality is C01's DbText entry)
+            match (text.parse::<Database>(), text.parse::<Database>()) {
+                (Ok(a), Ok(b)) => (Arc::new(a), Box::leak(Box::new(b)) as &'static Database),
+                _ => bundled.clone(),
+            }
+        })
+        .clone()
+}
+
 pub fn db() -> Arc<Database> {
-    static DB: OnceLock<Arc<Database>> = OnceLock::new();
-    DB.get_or_init(|| Arc::new(Database::load_default().expect("bundled p0f.fp loads"))).clone()
+    db_pair().0
 }
 
 pub fn db_static() -> &'static Database {
-    static DBS: OnceLock<&'static Database> = OnceLock::new();
-    DBS.get_or_init(|| Box::leak(Box::new(Database::load_default().expect("bundled p0f.fp loads"))))
+    db_pair().1
 }
 
 /// One reported item, rendered canonically.
